@@ -19,6 +19,9 @@ def sh(cmd, **kw):
     return subprocess.run(cmd, shell=True, text=True, capture_output=True, **kw)
 
 
+import fcntl
+_lock = open("/tmp/verif-repo.lock", "w")
+fcntl.flock(_lock, fcntl.LOCK_EX)   # one user of /repo at a time
 assert sh(f"git -C {R} diff --quiet").returncode == 0, "/repo dirty"
 env = dict(os.environ, PYTHONPATH=R)
 clean = subprocess.run(["/venv/bin/python", demo], env=env, capture_output=True, text=True, cwd=a.src, timeout=600)
